@@ -53,8 +53,8 @@ class deadline:
 
 
 def cases(tier, seed):
-    n = 48 if tier == 'quick' else 400
-    return [{'seed': seed, 'idx': i, 'hashseed': i % 5, 'ncrys': 2 if tier == 'quick' else 3, 'nmesh': 3,
+    n = 48 if tier == 'quick' else 1000
+    return [{'seed': seed, 'idx': i, 'hashseed': i % (5 if tier == 'quick' else 7), 'ncrys': 2 if tier == 'quick' else 3, 'nmesh': 3,
              'maxpts': 400 if tier == 'quick' else 1500} for i in range(n)]
 
 
